@@ -24,11 +24,14 @@ RULE = (
     "untouched. Non-trivial: a branch with L > 2d and at least one bend, in a tree with >= 2 branches."
 )
 ASSUMPTIONS = [
-    "only the default adjust_last_gap=True is asserted (the other mode's last step is unequal by design)",
+    "adjust_last_gap=False (steps of exactly the spacing, a shorter last step) is held to every clause but 'equal steps': "
+    "key nodes and end points kept, nodes on the polyline at arc length j*d, steps <= d, radii interpolated, length not "
+    "growing; there a branch length within 1e-6 of a whole number of steps is not compared",
     "arc length is measured on x, y, z only; at a zero-length segment the radius is discontinuous and any value "
     "between the coincident nodes' radii is accepted",
-    "the ends of the branches leaving one node have distinct positions (the assembler pairs branches and end "
-    "points by position); types and extra columns of interpolated nodes are unspecified",
+    "the ends of the branches leaving one node are distinguishable: distinct positions, or the same position with "
+    "different radii (identical twin tips are accepted in either pairing); types and extra columns of interpolated "
+    "nodes are unspecified",
 ]
 
 
@@ -80,6 +83,22 @@ def tree_strategy(draw, tier, min_n=2):
             for c in ("x", "y", "z", "r", "type"):
                 t[c][b] = t[c][a]
             t["twin_tips"] = [a, b]
+    # two branches leaving one node end at the same place, on key nodes that differ (another radius; a tip and a
+    # furcation, or furcations with different subtrees): a multi-way split traced as a cascade, a doubled branch point
+    if draw(st.integers(0, 5)) == 0 and "zero_branch" not in t and "twin_tips" not in t:
+        brs = models.branches(t["parents"])
+        by_start = {}
+        for b in brs:
+            by_start.setdefault(b[0], []).append(b)
+        multi = [v for k, v in sorted(by_start.items()) if len(v) >= 2]
+        if multi:
+            v = multi[draw(st.integers(0, len(multi) - 1))]
+            a, b = v[0][-1], v[1][-1]
+            for c in "xyz":
+                t[c][b] = t[c][a]
+            if t["r"][b] == t["r"][a]:
+                t["r"][b] = t["r"][a] + 0.5
+            t["coincident_sibling_ends"] = [a, b]
     return t
 
 
@@ -89,7 +108,11 @@ def resample_strategy(draw, tier):
     f = math.exp(draw(st.floats(min_value=math.log(0.05), max_value=math.log(20.0))))
     special = draw(st.integers(0, 9))
     return {"tree": t, "f": f, "special": special,
-            "reuse": draw(st.sampled_from(["no", "no", "same-tree-again", "another-tree-first"]))}
+            "reuse": draw(st.sampled_from(["no", "no", "same-tree-again", "another-tree-first", "moved-by-a-transform-after-a-first-resampling",
+                                           "edited-in-place-after-a-first-resampling"])),
+            "edit_sel": draw(st.integers(0, 10 ** 6)),
+            # the other spacing mode: steps of exactly the spacing and a shorter last step (no clause on equal steps there)
+            "adjust_last_gap": draw(st.integers(0, 4)) != 0}
 
 
 def _polyline(P):
@@ -122,8 +145,9 @@ def _spacing(t, f, special):
     return max(d, 1e-3), lens
 
 
-def _check_resampled(ctx, t, y, d, label):
-    """y: resampled Tree.  Walk both trees from the root, branch by branch."""
+def _check_resampled(ctx, t, y, d, label, adjust=True):
+    """y: resampled Tree.  Walk both trees from the root, branch by branch.  adjust=False: the mode whose steps are
+    exactly the spacing with a shorter last step (nodes at arc length j*d, the end point last)."""
     parents = t["parents"]
     P = models.xyz64(t)
     r32 = np.array(t["r"], dtype=np.float32)
@@ -173,7 +197,7 @@ def _check_resampled(ctx, t, y, d, label):
             rr = r32[list(B)].astype(np.float64)
             tol = 1e-4 * (1 + L) + 1e-5
             for j, node in enumerate(Y):
-                sarc = L * j / m
+                sarc = L * j / m if adjust else (L if j == m else min(j * d, L))
                 want_p = _point_at(Pb, cum, sarc)
                 if float(np.linalg.norm(yx[node] - want_p)) > tol:
                     return (f"{label}/nodes-on-the-polyline-at-equal-arc-steps",
@@ -237,9 +261,18 @@ def run_resample(case, ctx):
             "d<meanL" if case["f"] < 1 else "d>=meanL")
     if "twin_tips" in t:
         ctx.cls("twin-tips")
+    if "coincident_sibling_ends" in t:
+        ctx.cls("sibling-key-nodes-at-the-same-place")
     if any(p > i for i, p in enumerate(parents)):
         ctx.cls("numbering-not-parent-before-child")
-    rs = IsometricResampler(d)
+    adjust = bool(case.get("adjust_last_gap", True))
+    rs = IsometricResampler(d) if adjust else IsometricResampler(d, adjust_last_gap=False)
+    if not adjust:
+        ctx.cls("mode:last-step-shorter")
+        if any(v > 0 and abs(v / d - round(v / d)) < 1e-6 * max(1.0, v / d) for v in lens):
+            # a branch length within rounding of a whole number of steps: the node count of this mode is not determined
+            ctx.ambiguous("last-step-shorter-mode:L/d-within-1e-6-of-an-integer")
+            return
     how = case.get("reuse", "no")
     if how == "another-tree-first":
         ctx.lib("IsometricResampler", rs, gen_tree.build_tree(dict(t, x=[v + 1.0 for v in t["y"]], y=list(t["x"]))))
@@ -247,10 +280,35 @@ def run_resample(case, ctx):
     elif how == "same-tree-again":
         ctx.lib("IsometricResampler", rs, tree)  # the second result must again be made from the input, not from the first
         ctx.cls("resampler-object-reused")
+    elif how == "moved-by-a-transform-after-a-first-resampling":
+        # the tree was resampled once; a translated copy of it (made by the library) is resampled next: the result is
+        # made from the translated neuron
+        from swcgeom.transforms import Translate
+
+        ctx.lib("IsometricResampler", rs, tree)
+        sh = [0.5, -1.25, 2.0]
+        tree = ctx.lib("Translate", Translate(*sh), tree)
+        t = dict(t, x=[v + sh[0] for v in t["x"]], y=[v + sh[1] for v in t["y"]], z=[v + sh[2] for v in t["z"]])
+        before = {k: v.copy() for k, v in tree.ndata.items()}
+        ctx.cls("resampled-again-after-the-neuron-changed")
+    elif how == "edited-in-place-after-a-first-resampling":
+        # the tree was resampled once, then one of its tips was moved through a node handle and its radius changed
+        ctx.lib("IsometricResampler", rs, tree)
+        tips = [i for i in range(len(parents)) if not ch[i] and parents[i] != -1]
+        if tips:
+            i = tips[case.get("edit_sel", 0) % len(tips)]
+            nd = tree.node(i)
+            nd.x = float(np.float32(t["x"][i] + 0.0625))  # off the 1/8 lattice: still distinct from every other node
+            nd.r = float(np.float32(t["r"][i] + 0.25))
+            t = dict(t, x=list(t["x"]), r=list(t["r"]))
+            t["x"][i] = t["x"][i] + 0.0625
+            t["r"][i] = t["r"][i] + 0.25
+            before = {k: v.copy() for k, v in tree.ndata.items()}
+            ctx.cls("resampled-again-after-the-neuron-changed")
     y = ctx.lib("IsometricResampler", rs, tree)
     for k, v in before.items():
         ctx.check(np.array_equal(tree.ndata[k], v), "tree/input-unchanged", f"column {k}")
-    nlb = _check_resampled(ctx, t, y, d, "tree")
+    nlb = _check_resampled(ctx, t, y, d, "tree", adjust)
     ctx.nontrivial(nlb >= 1 and len(lens) >= 2)
 
 
@@ -301,14 +359,14 @@ def run_branch(case, ctx):
     tol = 1e-4 * (1 + L) + 1e-5
     snapshot = br.xyzr().copy()
 
-    def check(out, m_expected, label, d=None):
+    def check(out, m_expected, label, d=None, adjust=True):
         o = np.asarray(out.xyzr(), dtype=np.float64)
         ctx.check(len(o) == m_expected[0] or len(o) in m_expected, f"{label}/node-count", lambda: f"{len(o)} nodes, expected {m_expected}")
         m = len(o) - 1
         ctx.check(float(np.linalg.norm(o[0, :3] - P[0])) <= tol and float(np.linalg.norm(o[-1, :3] - P[-1])) <= tol,
                   f"{label}/end-points-kept", lambda: f"{o[0, :3].tolist()} .. {o[-1, :3].tolist()} vs {P[0].tolist()} .. {P[-1].tolist()}")
         for j in range(len(o)):
-            s = L * j / m if m > 0 else 0.0
+            s = (L * j / m if m > 0 else 0.0) if adjust else (L if j == m else min(j * d, L))
             want_p = _point_at(P, cum, s)
             ctx.check(float(np.linalg.norm(o[j, :3] - want_p)) <= tol, f"{label}/equal-arc-steps-on-the-polyline",
                       lambda: f"node {j}/{m}: {o[j, :3].tolist()} vs {want_p.tolist()} (L={L})")
@@ -326,6 +384,9 @@ def run_branch(case, ctx):
     near = L > 0 and abs(L / d - round(L / d)) < 1e-6 * max(1.0, L / d)
     out = ctx.lib("BranchIsometricResampler", lambda: BranchIsometricResampler(d)(br))
     check(out, [want] if not near else [want, want - 1, want + 1], "isometric", d)
+    if not near and L > 0:
+        out = ctx.lib("BranchIsometricResampler[adjust_last_gap=False]", lambda: BranchIsometricResampler(d, adjust_last_gap=False)(br))
+        check(out, [want], "isometric-last-step-shorter", d, adjust=False)
     ctx.nontrivial(L > 2 * d and bends)
 
 
@@ -390,7 +451,9 @@ SUBCHECKS = [
     Sub("tree", resample_strategy, run_resample, quick=2400, thorough=24000, shards_quick=4,
         required={"non-soma-root": 100, "soma-root": 100, "rootdeg:1": 50, "rootdeg:3": 30, "zero-length-segment": 100,
                   "zero-length-branch": 30, "d<meanL": 300, "d>=meanL": 300, "twin-tips": 40,
-                  "numbering-not-parent-before-child": 200, "resampler-object-reused": 300}),
+                  "numbering-not-parent-before-child": 200, "resampler-object-reused": 300,
+                  "sibling-key-nodes-at-the-same-place": 100, "resampled-again-after-the-neuron-changed": 300,
+                  "mode:last-step-shorter": 250}),
     Sub("branch", branch_strategy, run_branch, quick=2400, thorough=24000, shards_quick=2,
         required={"via:tree": 200, "via:from_xyzr": 200, "L=0": 10, "has-zero-length-segment": 100}),
     Sub("smooth", smooth_strategy, run_smooth, quick=1500, thorough=12000, shards_quick=2,
